@@ -193,9 +193,18 @@ def canon_model_dual(mo):
     return {'alpha': alpha, 'c': c, 'a': a, 'obj': obj, 'rhs': '1'}
 
 
-def solve_ecos(prob):
+def _solve_ecos_here(prob):
     try:
         st_, val = prob.solve(solver='ECOS', verbose=False)
         return st_, float(val)
     except Exception as e:  # noqa: BLE001
         return 'raised:' + type(e).__name__, float('nan')
+
+
+def solve_ecos(prob):
+    """(status, value) of the real Problem.solve with ECOS, computed in a forked child (the solver may crash)"""
+    import common
+    kind, res = common.forked(_solve_ecos_here, prob, timeout=120)
+    if kind == 'ok':
+        return res
+    return 'solver-%s' % kind, float('nan')
